@@ -1280,6 +1280,8 @@ func runC11(r *Run) error {
 		if len(made) == 0 {
 			continue
 		}
+		c11Reexpress(r, made[len(made)-1])
+		c11Reexpress(r, made[r.Rng.Intn(len(made))])
 		// sample descendants, later ones preferred (they are bigger)
 		for k := 0; k < perHistory; k++ {
 			var g *genetics.Genome
